@@ -393,16 +393,31 @@ class Interp:
         r.nz = x.nz or y.nz
         return r
 
+    @staticmethod
+    def _single_call(key, name):
+        """key is exactly one call `name(...)` (not a product or power that merely starts with it)."""
+        if not key.startswith(name + '('):
+            return False
+        depth = 0
+        for i, ch in enumerate(key):
+            if ch == '(':
+                depth += 1
+            elif ch == ')':
+                depth -= 1
+                if depth == 0:
+                    return i == len(key) - 1
+        return False
+
     def _builtin_interval(self, key):
-        if key.startswith('cos(') or key.startswith('sin('):
+        if self._single_call(key, 'cos') or self._single_call(key, 'sin'):
             return Interval(Fraction(-1), Fraction(1))
-        if key.startswith('exp('):
+        if self._single_call(key, 'exp'):
             return Interval(Fraction(0), None, True, False)
-        if key.startswith('sqrt(') or key.startswith('fabs('):
+        if self._single_call(key, 'sqrt') or self._single_call(key, 'fabs'):
             return Interval(Fraction(0), None)
-        if key.startswith('sizeof('):
+        if self._single_call(key, 'sizeof'):
             return Interval(Fraction(1), None)
-        if key.startswith('strlen('):
+        if self._single_call(key, 'strlen'):
             return Interval(Fraction(0), None)
         for rx, iv in self.assume_patterns:
             if rx.search(key):
@@ -862,7 +877,16 @@ class Interp:
             if not reduce_trig(r.n).is_const() and len(reduce_trig(r.n).t) > 1:
                 ia, ib = self.interval_of(a, st), self.interval_of(b, st)
                 if op == '*':
-                    self.store_interval(st, r, self._imul(ia, ib))
+                    prod = self._imul(ia, ib)
+                    if a.canon() == b.canon():
+                        # a square
+                        if prod.lo is None or prod.lo < 0:
+                            prod.lo, prod.los = Fraction(0), False
+                        if ia.excludes_zero():
+                            prod.nz = True
+                            if prod.lo == 0:
+                                prod.los = True
+                    self.store_interval(st, r, prod)
                 elif op == '+':
                     self.store_interval(st, r, self._iadd(ia, ib))
                 else:
